@@ -56,6 +56,8 @@ if good:
                         pass
     finally:
         sh("git checkout -- .", "/repo")
+        # evidence written while the change was applied is not evidence about /repo: put the committed files back
+        sh("git checkout -- evidence", os.environ.get("VERIF_ROOT", "/verif"))
 dst = os.path.join("/verif/seeded", seed_id)
 os.makedirs(dst, exist_ok=True)
 shutil.copy(patch, os.path.join(dst, "patch.diff"))
